@@ -170,19 +170,29 @@ PROPERTIES = {
         ],
     },
     "C08": {
-        "functions": ["registry"] + ["metric:" + k for k in sorted(__import__("specs.metrics", fromlist=["METRICS"]).METRICS)],
+        "functions": ["registry"] + ["metric:" + k for k in sorted(__import__("specs.metrics", fromlist=["METRICS"]).METRICS)]
+                     + ["axioms:" + k for k, v in sorted(__import__("specs.metrics", fromlist=["METRICS"]).METRICS.items())
+                        if v["axioms"]],
         "lemmas": [],
         "files": ["opfython/math/distance.py", "opfython/utils/decorator.py", "opfython/utils/constants.py"],
         "bounded": "bounded.metrics",
         "level": "other",
-        "explanation": "PROVED: each registry entry equals its closed form (C06 obligations, all vector lengths) and every "
-                       "partial operation (division, log, root) is defined on the metric's domain over the reals. "
-                       "BOUNDED (run-time contract on the real functions, stated scope): the axiom table of "
-                       "specs/metrics.py - finite, symmetric, non-negative, zero self-distance, triangle inequality for the "
-                       "13 listed true metrics - on generated vectors of length 1..6 incl. identical, parallel, probability "
-                       "and zero-containing vectors. CITED: Soergel triangle inequality. Float-fragile clauses (chord's "
-                       "radicand, cosine/bhattacharyya sign up to 1 ulp) are checked on the real functions only.",
-        "trusted": ["see C06", "axiom table fixed in /verif/specs/metrics.py"],
+        "explanation": "PROVED over the reals (z3), for every vector length: each registry entry equals its closed form and every "
+                       "division / log / root is defined on the domain (C06 obligations); and, as lemmas over the closed forms "
+                       "(`axioms:<name>`): SYMMETRY of every metric the table marks symmetric (summands of d(y,x) matched "
+                       "pointwise with summands of d(x,y), outer expressions equal), NON-NEGATIVITY and ZERO SELF-DISTANCE of "
+                       "every dissimilarity the table marks (a reduction of identically-zero terms is 0; sign facts of "
+                       "reductions from pointwise signs), and the TRIANGLE INEQUALITY of manhattan, gower, non_intersection, "
+                       "hamming, canberra, chebyshev and lorentzian from the pointwise triangle inequality of their summand "
+                       "(additivity + monotonicity of SUM, sub-additivity of AMAX; for lorentzian log monotone with "
+                       "log(uv) = log u + log v). ASSUMED: the listed properties of log / sqrt and of the reductions. "
+                       "CITED (not mechanised): Minkowski's inequality for euclidean, average_euclidean, hellinger, matusita, "
+                       "log_euclidean; the Soergel triangle inequality. BOUNDED (run-time contract on the real functions, "
+                       "length 1..6, identical / parallel / probability / zero-containing vectors): FINITENESS in floating "
+                       "point (incl. the float-fragile radicand of chord and the sign of cosine / bhattacharyya up to 1 ulp), "
+                       "the cited triangle inequalities, and the whole axiom table again on the compiled code.",
+        "trusted": ["see C06", "axiom table fixed in /verif/specs/metrics.py",
+                    "log: log 1 = 0, sign of log around 1, log(u/v) = log u - log v, monotone (assumed)"],
     },
     "C12": {
         "functions": ["opfython.subgraphs.knn.KNNSubgraph.create_arcs", "opfython.subgraphs.knn.KNNSubgraph.calculate_pdf",
